@@ -6,6 +6,7 @@
 mod util;
 mod c01;
 mod c05;
+mod c09;
 mod stats;
 mod c13;
 mod c16;
@@ -33,6 +34,8 @@ fn main() {
         ("c15", "replay") => c15::replay(rest),
         ("c18", "replay") => c18::replay(rest),
         ("c17", "replay") => c17::replay(rest),
+        ("c09", "replay") => c09::replay(rest),
+        ("c09", "record") => c09::record(rest),
         (p, m) => util::tool_error(&format!("unknown command {p} {m}")),
     }
 }
